@@ -77,6 +77,14 @@ def prepare(mod, run):
         run.broken.append("axiom audit: " + "; ".join(bad[:5]))
     prep["axioms_used"] = sorted(used)
     prep["discharged"] = len(thms) - len(bad) if not hits else 0
+    # 5. thorough tier: the compiled theorems (and the regenerated files they import) are re-checked by the independent checker
+    if run.tier == "thorough":
+        mods = list(mod.MODULES) + [f"ElexModel.Gen.{g}" for g in prep.get("regenerated", [])]
+        okc, logc, dtc = C.leanchecker(mods)
+        prep["leanchecker"] = {"modules": mods, "ok": okc, "seconds": round(dtc, 1)}
+        if not okc:
+            run.broken.append("leanchecker rejected the compiled theorems: " + logc[-400:])
+            prep["discharged"] = 0
     return prep
 
 
@@ -178,7 +186,8 @@ def decide(mod, run, replay):
         trusted=list(getattr(mod, "TRUSTED", [])) + COMMON_TRUSTED,
         checker_cmd=checker,
         violations=len(unknown) + (1 if (code == 1 and not unknown) else 0),
-        extra={"build_s": prep.get("build_s"), "driver_lines": driver.lines if driver else 0},
+        extra={"build_s": prep.get("build_s"), "driver_lines": driver.lines if driver else 0, "regenerated_from_source": prep.get("regenerated", []),
+               "leanchecker": prep.get("leanchecker")},
     )
     for l in lines:
         print(l)
